@@ -57,9 +57,15 @@ def in_big_stack(fn):
 
 
 def reseed(seed):
+    """Everything a generated program depends on besides the configuration: the RNG, the word pool and (hook H1) the serial
+    numbers that order sets of IR nodes - so that (configuration, seed) determines the program whatever ran before."""
+    import itertools
+    import src.ir.node as N
     u = _STATE["utils"]
     u.random.r.seed(seed)
     u.random.reset_word_pool()
+    if hasattr(N, "_serial"):
+        N._serial = itertools.count(1)
 
 
 def generate(seed):
